@@ -435,7 +435,8 @@ pub fn run_worker<P: Prop>(tier: Tier, seed: u64, index: usize, workers: usize, 
     }
 
     // 2. random search
-    let total = P::cases(tier);
+    // DV_CASES=<n>: override the number of random cases (debugging, focused runs; never used by the registered commands)
+    let total = std::env::var("DV_CASES").ok().and_then(|s| s.parse::<u64>().ok()).unwrap_or_else(|| P::cases(tier));
     let my_cases = total / workers as u64 + if (index as u64) < total % workers as u64 { 1 } else { 0 };
     if violation.is_none() && my_cases > 0 {
         let config = Config {
@@ -444,7 +445,8 @@ pub fn run_worker<P: Prop>(tier: Tier, seed: u64, index: usize, workers: usize, 
             rng_seed: RngSeed::Fixed(derive_seed(seed, P::ID, tier, index)),
             rng_algorithm: RngAlgorithm::ChaCha,
             max_shrink_iters: 3000,
-            max_shrink_time: 0,
+            // cheap checks shrink for at most 3000 iterations; slow cases (live nodes, crash enumeration) stop after three minutes
+            max_shrink_time: 180_000,
             fork: false,
             timeout: 0,
             verbose: 0,
